@@ -14,6 +14,9 @@
 (*   {"ev":"dnew","stored":s,"nin":n,"ver":k}   AdtDeserializer::new[_v0]   *)
 (*   {"ev":"rf","kind":0..7,"chunk":c,"n":name}  read_[optional_]field      *)
 (*   {"ev":"rend","ok":0|1}                 the decoding call returned      *)
+(* and, around these, for a value of an enum ("vi": the constructor):       *)
+(*   {"ev":"wc","idx":k}  write_constructor   {"ev":"rc","idx":k,"case":j}  *)
+(*   read_constructor (case j tried against the stored index k)             *)
 (* (only declarations whose fields are not records themselves are traced,   *)
 (* so every event belongs to the record of the case).                       *)
 (*                                                                         *)
@@ -22,35 +25,63 @@
 (***************************************************************************)
 EXTENDS AdtMech, Json, IOUtils
 Rec == ndJsonDeserialize(IOEnv.TRACE)
-VARIABLES l, ph, W, R, i, cnt, mayfail, viol
-vars == <<l, ph, W, R, i, cnt, mayfail, viol>>
+VARIABLES l, ph, W, R, i, cnt, mayfail, viol,
+          en          \* enum layer of the case: [on, widx (constructor index on the wire), next (reader case to be tried)]
+vars == <<l, ph, W, R, i, cnt, mayfail, viol, en>>
 Flag(cond, why) == IF viol = <<>> /\ ~cond THEN <<l, why>> ELSE viol
 NoDecl == [fields |-> <<>>, steps |-> <<>>]
-Init == l = 1 /\ ph = "idle" /\ W = NoDecl /\ R = NoDecl /\ i = 1 /\ cnt = ZeroCnt /\ mayfail = FALSE /\ viol = <<>>
+NoEnum == [on |-> FALSE, widx |-> 0, next |-> 0]
+Init == l = 1 /\ ph = "idle" /\ W = NoDecl /\ R = NoDecl /\ i = 1 /\ cnt = ZeroCnt /\ mayfail = FALSE /\ viol = <<>> /\ en = NoEnum
 B(x) == IF x THEN 1 ELSE 0
 
+\* an enum value: the enum's own (headerless) record around the record of the constructor.  The constructor is
+\* written as its index in constructor order; the reader tries its cases in that order up to the stored index.
+VariantAsStruct(E, v) == StructT(E.variants[v].fields, E.variants[v].steps)
+ReaderVariant(E, idx) == CHOOSE v \in 1..Len(E.variants) : CtorIndex(E, v) = idx
 Case(e) == /\ e.ev = "case" /\ ph \in {"idle", "done"}
-           /\ W' = e.w /\ R' = e.r /\ ph' = "w0" /\ i' = 1 /\ cnt' = ZeroCnt /\ mayfail' = FALSE /\ UNCHANGED viol
+           /\ IF e.w.k = "enum"
+              THEN /\ W' = VariantAsStruct(e.w, e.vi) /\ R' = VariantAsStruct(e.r, ReaderVariant(e.r, CtorIndex(e.w, e.vi)))
+                   /\ en' = [on |-> TRUE, widx |-> CtorIndex(e.w, e.vi), next |-> 0] /\ ph' = "e0"
+              ELSE W' = e.w /\ R' = e.r /\ en' = NoEnum /\ ph' = "w0"
+           /\ i' = 1 /\ cnt' = ZeroCnt /\ mayfail' = FALSE /\ UNCHANGED viol
+ANewE(e) == /\ e.ev = "anew" /\ ph = "e0"
+            /\ viol' = Flag(e.ver = 0 /\ e.buf = 0, "the enum's own record is not headerless")
+            /\ ph' = "e1" /\ UNCHANGED <<W, R, i, cnt, mayfail, en>>
+WC(e) == /\ e.ev = "wc" /\ ph = "e1"
+         /\ viol' = Flag(e.idx = en.widx, "the constructor is not written as its index in constructor order")
+         /\ ph' = "w0" /\ UNCHANGED <<W, R, i, cnt, mayfail, en>>
+AFinE(e) == /\ e.ev = "afin" /\ ph = "efin"
+            /\ viol' = Flag(e.nb = 0, "the enum's own record is not headerless")
+            /\ ph' = "wfin" /\ UNCHANGED <<W, R, i, cnt, mayfail, en>>
+DNewE(e) == /\ e.ev = "dnew" /\ ph = "r0" /\ en.on
+            /\ viol' = Flag(e.stored = 0 /\ e.nin = 0 /\ e.ver = 0, "the enum's own record is not read as headerless")
+            /\ ph' = "rc" /\ UNCHANGED <<W, R, i, cnt, mayfail, en>>
+RC(e) == /\ e.ev = "rc" /\ ph = "rc"
+         /\ viol' = Flag(e.idx = en.widx /\ e.case = en.next /\ e.case <= e.idx,
+                         "the reader does not try its constructors in order up to the stored index")
+         /\ en' = [en EXCEPT !.next = @ + 1, !.on = (e.case # e.idx)]     \* matched: the constructor's record follows
+         /\ ph' = IF e.case = e.idx THEN "r0" ELSE "rc"
+         /\ UNCHANGED <<W, R, i, cnt, mayfail>>
 ANew(e) == /\ e.ev = "anew" /\ ph = "w0"
            /\ viol' = Flag(e.ver = WVersion(W) /\ e.buf = B(WBuffered(W)), "the writer does not announce the version of its declaration")
-           /\ ph' = "w" /\ i' = NextSer(W.fields, 1) /\ UNCHANGED <<W, R, cnt, mayfail>>
+           /\ ph' = "w" /\ i' = NextSer(W.fields, 1) /\ UNCHANGED <<W, R, cnt, mayfail, en>>
 WF(e) == /\ e.ev = "wf" /\ ph = "w"
          /\ IF i > Len(W.fields)
             THEN viol' = Flag(FALSE, "a field is written that the declaration does not serialise") /\ UNCHANGED i
             ELSE /\ viol' = Flag(e.n = W.fields[i].n /\ e.chunk = WChunk(W, W.fields[i]) /\ e.buf = B(WBuffered(W)),
                                  "fields are not written in declaration order, each to the chunk of the step that added it")
                  /\ i' = NextSer(W.fields, i + 1)
-         /\ UNCHANGED <<ph, W, R, cnt, mayfail>>
+         /\ UNCHANGED <<ph, W, R, cnt, mayfail, en>>
 AFin(e) == /\ e.ev = "afin" /\ ph = "w"
            /\ viol' = Flag(i > Len(W.fields) /\ e.nb = WBuffers(W), "finish before every field was written / wrong number of chunks")
-           /\ ph' = "wfin" /\ UNCHANGED <<W, R, i, cnt, mayfail>>
+           /\ ph' = (IF en.on THEN "efin" ELSE "wfin") /\ UNCHANGED <<W, R, i, cnt, mayfail, en>>
 WEnd(e) == /\ e.ev = "wend" /\ ph = "wfin"
            /\ viol' = Flag(e.ok = 1, "encoding a value of a legal declaration failed")
-           /\ ph' = "r0" /\ UNCHANGED <<W, R, i, cnt, mayfail>>
-DNew(e) == /\ e.ev = "dnew" /\ ph = "r0"
+           /\ ph' = "r0" /\ UNCHANGED <<W, R, i, cnt, mayfail, en>>
+DNew(e) == /\ e.ev = "dnew" /\ ph = "r0" /\ ~en.on
            /\ viol' = Flag(e.stored = WVersion(W) /\ e.ver = WVersion(R) /\ e.nin = WBuffers(W),
                            "the reader does not see the writer's version / its own version / one region per header entry")
-           /\ ph' = "r" /\ i' = NextSer(R.fields, 1) /\ cnt' = ZeroCnt /\ mayfail' = FALSE /\ UNCHANGED <<W, R>>
+           /\ ph' = "r" /\ i' = NextSer(R.fields, 1) /\ cnt' = ZeroCnt /\ mayfail' = FALSE /\ UNCHANGED <<W, R, en>>
 RF(e) == /\ e.ev = "rf" /\ ph = "r"
          /\ IF i > Len(R.fields)
             THEN viol' = Flag(FALSE, "a field is read that the declaration does not serialise") /\ UNCHANGED <<i, cnt, ph, mayfail>>
@@ -61,16 +92,16 @@ RF(e) == /\ e.ev = "rf" /\ ph = "r"
                  /\ i' = NextSer(R.fields, i + 1)
                  /\ ph' = IF Fatal(f, k) THEN "rfail" ELSE "r"
                  /\ mayfail' = MayFail(k)
-         /\ UNCHANGED <<W, R>>
+         /\ UNCHANGED <<W, R, en>>
 REnd(e) == /\ e.ev = "rend" /\ ph \in {"r", "rfail"}
            /\ viol' = Flag(IF ph = "rfail" THEN e.ok = 0
                            ELSE IF e.ok = 1 THEN i > Len(R.fields)
                            ELSE mayfail,
                            "the read ends with a result the decisions do not explain")
-           /\ ph' = "done" /\ UNCHANGED <<W, R, i, cnt, mayfail>>
+           /\ ph' = "done" /\ UNCHANGED <<W, R, i, cnt, mayfail, en>>
 
 Next == /\ l <= Len(Rec)
-        /\ LET e == Rec[l] IN Case(e) \/ ANew(e) \/ WF(e) \/ AFin(e) \/ WEnd(e) \/ DNew(e) \/ RF(e) \/ REnd(e)
+        /\ LET e == Rec[l] IN Case(e) \/ ANewE(e) \/ WC(e) \/ AFinE(e) \/ DNewE(e) \/ RC(e) \/ ANew(e) \/ WF(e) \/ AFin(e) \/ WEnd(e) \/ DNew(e) \/ RF(e) \/ REnd(e)
         /\ l' = l + 1
 Spec == Init /\ [][Next]_vars
 Accepted == IF TLCGet("stats").diameter - 1 # Len(Rec)
